@@ -202,6 +202,38 @@ func Generate(t *rapid.T, o Options) Query {
 		sort.Strings(feats)
 		return Query{Text: text, Features: feats}
 	}
+	if o.AllowPaths && g.chance("multipath", 1, 20) {
+		// several path variables, each used whole and through nodes()/relationships(): staging of path composites
+		g.feat("multi-path-projection")
+		np := 2 + g.pick("npaths", 2)
+		var pats, items []string
+		for i := 1; i <= np; i++ {
+			pv := fmt.Sprintf("p%d", i)
+			rel := "[:" + g.eks() + "]"
+			if o.AllowVarLength && g.chance("mpvar", 1, 3) {
+				rel = "[:" + g.ek() + g.rng() + "]"
+			}
+			pats = append(pats, fmt.Sprintf("%s = (a%d%s)-%s->(b%d)", pv, i, g.optKind("mpk"), rel, i))
+			uses := []string{pv, "nodes(" + pv + ")", "relationships(" + pv + ")", "size(relationships(" + pv + "))"}
+			perm := rapid.Permutation(uses).Draw(g.t, "mpuses")
+			items = append(items, perm[:2+g.pick("mpn", 2)]...)
+		}
+		sep := ", "
+		if g.chance("mpsepmatch", 1, 3) {
+			sep = " match "
+		}
+		text := "match " + strings.Join(pats, sep)
+		if g.chance("mpwhere", 1, 2) {
+			text += " where " + g.anchor("a1")
+		}
+		text += " return " + strings.Join(rapid.Permutation(items).Draw(g.t, "mpitems"), ", ")
+		feats := make([]string, 0, len(g.feats))
+		for f := range g.feats {
+			feats = append(feats, f)
+		}
+		sort.Strings(feats)
+		return Query{Text: text, Features: feats}
+	}
 	var sb strings.Builder
 	nclauses := 1 + g.pick("nclauses", o.MaxClauses)
 	if nclauses > 1 && g.chance("fewer", 1, 2) {
